@@ -6,6 +6,8 @@ package redis
 import (
 	"io"
 	"sort"
+	"strconv"
+	"sync"
 	"time"
 
 	"github.com/samaritan-proxy/samaritan/pb/config/service"
@@ -159,4 +161,32 @@ func (r *VerifFilterReq) Response() *RespValue {
 	default:
 		return nil
 	}
+}
+
+var (
+	verifRouteOnce sync.Once
+	verifRouteUp   *upstream
+)
+
+// VerifRouteSlot returns the slot the upstream actually routes the key by: it
+// asks chooseHost of an upstream whose every slot is owned by a distinct
+// instance which is named after the slot.
+func VerifRouteSlot(key []byte) int {
+	verifRouteOnce.Do(func() {
+		u := &upstream{cfg: newConfig(&service.Config{})}
+		for i := range u.slots {
+			u.slots[i] = &instance{Addr: strconv.Itoa(i)}
+		}
+		verifRouteUp = u
+	})
+	req := newSimpleRequest(newByteArray([]byte("set"), key, []byte("v")))
+	addr, err := verifRouteUp.chooseHost(key, req)
+	if err != nil {
+		return -1
+	}
+	slot, err := strconv.Atoi(addr)
+	if err != nil {
+		return -1
+	}
+	return slot
 }
